@@ -711,6 +711,31 @@ impl<'a> Runner<'a> {
         }
     }
 
+    /// C02: an upload whose body transfer breaks off must not be accepted as a (truncated) version.
+    fn mon_broken_upload(&mut self, c: usize) {
+        use crate::http::{HttpReq, CT_HISTORY};
+        let latest = self.clients[c].latest();
+        let n = 2 + self.rng.usize(3);
+        let mut req = HttpReq::new("POST", &format!("/v1/client/add-version/{latest}"))
+            .header("X-Client-Id", &self.clients[c].id.to_string())
+            .header("Content-Type", CT_HISTORY)
+            .body_chunks((0..n).map(|i| vec![b'k' + i as u8; 30 + i * 7]).collect());
+        req.fail_after = Some(1 + self.rng.usize(n - 1));
+        let before = self.dump();
+        let resp = self.subj.http(&req);
+        self.cov.evaluations += 1;
+        let after = self.dump();
+        self.cov.hit(format!("broken-upload:status={}", resp.status));
+        if (200..300).contains(&resp.status) {
+            self.v("C02", format!(
+                "an AddVersion(parent={latest}) whose body transfer broke off after {:?} of {n} chunks was accepted on {} ({}): the stored payload cannot be the submitted one",
+                req.fail_after, self.subj.kind.name(), resp.describe()
+            ));
+        } else if before != after {
+            self.v("C02", format!("an AddVersion whose body transfer broke off was refused ({}) but changed stored state: {}", resp.status, before.diff(&after)));
+        }
+    }
+
     fn non_mutating(&self, req: &Req, resp: &Resp) -> bool {
         match (req, resp) {
             (Req::GetChild { .. }, _) => !matches!(resp, Resp::Error(_)),
@@ -1209,6 +1234,9 @@ impl<'a> Runner<'a> {
             }
 
             // ---- per-op global monitors
+            if self.mon.cas && self.subj.kind.entry == Entry::Http && !self.subj.kind.socket && self.clients[c].touched && self.rng.pct(12) {
+                self.mon_broken_upload(c);
+            }
             if self.mon.frame && self.subj.kind.entry == Entry::Http && self.rng.pct(30) {
                 self.mon_refused(c);
             }
